@@ -46,24 +46,24 @@ def _is_perm(A, B):
     return True
 
 
-def _check_groups(ctx, rows, groups, v, h, avoid_jack):
+def _check_groups(ctx, rows, groups, v, h, avoid_jack, label=""):
     flat = [_rec(r) for g in groups for r in g]
-    ctx.check("partition.every-note-exactly-once", _is_perm(flat, rows), note="%d notes, groups of sizes %s" % (len(rows), [len(g) for g in groups]))
-    ctx.check("partition.no-empty-group", all(len(g) > 0 for g in groups))
+    ctx.check(label + "partition.every-note-exactly-once", _is_perm(flat, rows), note="%d notes, groups of sizes %s" % (len(rows), [len(g) for g in groups]))
+    ctx.check(label + "partition.no-empty-group", all(len(g) > 0 for g in groups))
     for gi, g in enumerate(groups):
         recs = [_rec(r) for r in g]
         if not recs:
             continue
         first = recs[0]
-        ctx.check("group%d.first-is-earliest" % gi, ctx.all(*[ctx.le(first["t"], r["t"]) for r in recs]))
-        ctx.check("group%d.within-vertical-window" % gi, ctx.all(*[ctx.all(ctx.ge(r["t"], first["t"]), ctx.le(r["t"], first["t"] + v)) for r in recs]))
+        ctx.check(label + "group%d.first-is-earliest" % gi, ctx.all(*[ctx.le(first["t"], r["t"]) for r in recs]))
+        ctx.check(label + "group%d.within-vertical-window" % gi, ctx.all(*[ctx.all(ctx.ge(r["t"], first["t"]), ctx.le(r["t"], first["t"] + v)) for r in recs]))
         if h is not None:
-            ctx.check("group%d.within-horizontal-window" % gi, ctx.all(*[ctx.all(ctx.le(r["c"] - first["c"], h), ctx.le(first["c"] - r["c"], h)) for r in recs]))
+            ctx.check(label + "group%d.within-horizontal-window" % gi, ctx.all(*[ctx.all(ctx.le(r["c"] - first["c"], h), ctx.le(first["c"] - r["c"], h)) for r in recs]))
         if avoid_jack:
-            ctx.check("group%d.no-repeated-column" % gi, ctx.all(*[ctx.ne(a["c"], b["c"]) for a, b in itertools.combinations(recs, 2)]))
+            ctx.check(label + "group%d.no-repeated-column" % gi, ctx.all(*[ctx.ne(a["c"], b["c"]) for a, b in itertools.combinations(recs, 2)]))
 
 
-def ob_group(kinds, ncols, h, avoid_jack, ctx, via_lists=False):
+def ob_group(kinds, ncols, h, avoid_jack, ctx, via_lists=False, again=None):
     from reamber.algorithms.pattern import Pattern
 
     TY = _types()
@@ -91,6 +91,14 @@ def ob_group(kinds, ncols, h, avoid_jack, ctx, via_lists=False):
         rows = [dict(c=cs[i], t=t[i], ty=TY[k]) for i, k in enumerate(kinds)]
     groups = p.group(v_window=v, h_window=h, avoid_jack=avoid_jack)
     _check_groups(ctx, rows, groups, v, h, avoid_jack)
+    if again is not None:  # the same Pattern object grouped a second time with other settings: the answer follows the new settings
+        h2, aj2, same_v = again
+        v2 = v if same_v else ctx.real("v2")
+        ctx.assume(v2 >= 0)
+        groups2 = p.group(v_window=v2, h_window=h2, avoid_jack=aj2)
+        _check_groups(ctx, rows, groups2, v2, h2, aj2, label="second-call.")
+        groups3 = p.group(v_window=v, h_window=h, avoid_jack=avoid_jack)
+        _check_groups(ctx, rows, groups3, v, h, avoid_jack, label="first-settings-again.")
     for gi, g in enumerate(groups):
         for ri, r in enumerate(g):
             ctx.observe("g%d.%d.t" % (gi, ri), r["offset"])
@@ -265,6 +273,8 @@ FILTERS = {
     "chord[1,2]-and-higher-excluded": dict(chord=(lambda n: [[1, 2, 1, 1][:n]], 4, True)),
     "chord[2,1]-lower-any": dict(chord=(lambda n: [[2, 1, 2, 1][:n]], 3, False)),
     "combo[0,1..]": dict(combo=(lambda n: [list(range(n))], 0, False)),
+    "combo[1,0..]": dict(combo=(lambda n: [[1, 0, 1, 0][:n]], 0, False)),
+    "combo[1,0..]-excluded": dict(combo=(lambda n: [[1, 0, 0, 2][:n]], 0, True)),
     "combo[0,1..]-repeat": dict(combo=(lambda n: [[0, 1, 0, 1][:n]], 1, False)),
     "combo[0,1..]-hmirror": dict(combo=(lambda n: [[0, 1, 0, 2][:n]], 2, False)),
     "combo[0,2..]-vmirror-repeat": dict(combo=(lambda n: [[0, 2, 1, 3][:n]], 5, False)),
@@ -349,6 +359,12 @@ def obligations(tier, seed):
                         continue
                     obs.append(Obligation("C20/group/%s/cols%d/h=%s/jack-avoid=%s" % (kinds, ncols, h, aj), partial(ob_group, kinds, ncols, h, aj),
                                           bound=B % (kinds, ncols, h, aj), max_paths=20000, timeout_s=600 if not quick else 240))
+    for kinds in (("hh", "hhh") if quick else ("hh", "hhh", "hHh", "hhhh")):
+        for (h, aj), again in (((None, False), (None, True, True)), ((None, True), (None, False, True)), ((1, False), (0, False, True)), ((None, True), (None, True, False))):
+            obs.append(Obligation("C20/regroup/%s/h=%s,jack-avoid=%s/then-h=%s,jack-avoid=%s,%s" % (kinds, h, aj, again[0], again[1], "same-v" if again[2] else "other-v"),
+                                  partial(ob_group, kinds, 2, h, aj, again=again),
+                                  bound="one Pattern object (%d notes, 2 columns, symbolic times/columns/windows) grouped three times: settings A, settings B, settings A" % len(kinds),
+                                  max_paths=6000, timeout_s=300))
     for kinds in (["hH", "HH", "hHh"] if quick else ["hH", "HH", "hHh", "HhH"]):
         for h, aj in ((None, True), (1, False)):
             obs.append(Obligation("C20/group-from-lists/%s/h=%s/jack-avoid=%s" % (kinds, h, aj), partial(ob_group, kinds, 2, h, aj, via_lists=True),
